@@ -161,7 +161,7 @@ theorem readStream_wf : ∀ (cs : List ClassFrame) (cfgs : List Cfg) (base total
     | cons cfg cfgs =>
       have hc : wellFormed c = true := hwf c (by simp)
       have hx : framesExact c = true := by
-        simp only [wellFormed, Bool.and_eq_true] at hc; exact hc.1.1.1
+        simp only [wellFormed, Bool.and_eq_true] at hc; exact hc.1.1.1.1.1
       have hs : sizes (c :: cs) = c.size + sizes cs := by simp [sizes]
       rw [hs] at ht
       have hfull := readWith_full (avail := total - base) hc (by omega)
